@@ -186,6 +186,14 @@ func (c *Collection) CreateColumn(columnName string, column Column) error {
 		capacity = uint32(c.opts.Capacity)
 	}
 
+	// Rows may live at offsets beyond the count (sparse fill-list), hence the
+	// new column must cover the entire fill-list.
+	c.lock.RLock()
+	if size := uint32(len(c.fill)) << 6; size > capacity {
+		capacity = size
+	}
+	c.lock.RUnlock()
+
 	column.Grow(capacity)
 	c.cols.Store(columnName, columnFor(columnName, column))
 
